@@ -11,6 +11,7 @@ import (
 
 	goat "github.com/avos-io/goat"
 	"github.com/avos-io/goat/gen/goatorepo"
+	"github.com/jonboulle/clockwork"
 )
 
 // flakyHTTP is an HTTP endpoint in the middle of a restart: the first request it sees is cut off at
@@ -170,4 +171,118 @@ func containsAny(s string, subs ...string) bool {
 		}
 	}
 	return false
+}
+
+// hungHTTP accepts every request and never answers (until closed).
+type hungHTTP struct {
+	addr     string
+	srv      *http.Server
+	requests atomic.Int32
+	release  chan struct{}
+	once     sync.Once
+}
+
+func newHungHTTP() (*hungHTTP, error) {
+	ln, err := net.Listen("tcp", "127.0.0.1:0")
+	if err != nil {
+		return nil, err
+	}
+	h := &hungHTTP{addr: ln.Addr().String(), release: make(chan struct{})}
+	h.srv = &http.Server{Handler: http.HandlerFunc(func(w http.ResponseWriter, req *http.Request) {
+		h.requests.Add(1)
+		select {
+		case <-h.release:
+		case <-req.Context().Done():
+		}
+	})}
+	go h.srv.Serve(ln)
+	return h, nil
+}
+
+func (h *hungHTTP) Close() {
+	h.once.Do(func() { close(h.release) })
+	h.srv.Close()
+}
+
+// c19HttpStuckWriteTimesOut (scenario clean): a Write to a peer that never answers is in flight; the
+// connection then idles past its timeout and the cleaner retires it; finally the Write's context ends.
+// The Write returns an error, the connection's Read fails, and nothing panics — in particular not the
+// goroutine of the sender (in a proxy that is the peer's writeLoop: its panic is the process's).
+func c19HttpStuckWriteTimesOut(r *Run) (ok bool) {
+	scenario := "clean.stuckwrite"
+	r.Progress(scenario, nil)
+	peer, err := newHungHTTP()
+	if err != nil {
+		r.Count(scenario + ".no_listener")
+		return true
+	}
+	defer peer.Close()
+	hooks.Reset(true)
+	defer hooks.Reset(false)
+	interval, timeout := 10*time.Second, 20*time.Second
+	clk := clockwork.NewFakeClock()
+	node := c19NewNode(c19IdentityMapper, goat.WithClock(clk), goat.WithConnectionCleanupInterval(interval), goat.WithConnectionTimeout(timeout))
+	defer node.Close()
+	if !within(hangTimeout, func() { clk.BlockUntil(1) }) {
+		r.Violate(scenario, "schedule", "the cleaner never created its ticker", nil, nil, nil)
+		return false
+	}
+	fc := &c19Clock{clk: clk, interval: interval}
+	rw := node.goh.NewConnection(peer.addr)
+	ctx, cancel := context.WithCancel(context.Background())
+	defer cancel()
+	type wres struct {
+		err error
+		pan any
+	}
+	wch := make(chan wres, 1)
+	go func() {
+		var out wres
+		defer func() {
+			out.pan = recover()
+			wch <- out
+		}()
+		out.err = rw.Write(ctx, &Rpc{Id: 7, Header: &goatorepo.RequestHeader{Source: "writer", Method: "/s/m"}})
+	}()
+	deadline := time.Now().Add(hangTimeout)
+	for peer.requests.Load() < 1 && time.Now().Before(deadline) {
+		time.Sleep(time.Millisecond)
+	}
+	// the connection idles out while the Write is stuck
+	_, unreg := fc.tickUntilUnregistered(peer.addr, 0, 6)
+	r.Count(fmt.Sprintf("%s.unregistered=%v", scenario, unreg))
+	rch := make(chan error, 1)
+	go func() {
+		rctx, rcancel := context.WithTimeout(context.Background(), hangTimeout)
+		defer rcancel()
+		_, err := rw.Read(rctx)
+		rch <- err
+	}()
+	cancel() // the sender gives up (a proxy cancels the write when the connection's reader has failed)
+	r.Eval(scenario, true)
+	ok = true
+	select {
+	case w := <-wch:
+		if w.pan != nil {
+			r.Violate(scenario+".panic", "schedule", "a Write whose connection had been retired by the idle cleaner panicked when its context ended (in a proxy this is the peer's writeLoop goroutine: the process dies)", map[string]any{"peer": "never answers", "order": "write in flight, idle timeout, write cancelled"}, fmt.Sprint(w.pan), "an error")
+			ok = false
+		} else if w.err == nil {
+			r.Violate(scenario, "schedule", "a Write that nobody answered reported success", nil, "nil", "an error")
+			ok = false
+		}
+	case <-time.After(hangTimeout):
+		r.Violate(scenario, "schedule", "a stuck Write did not return once its context was done", nil, goroutineDump(), nil)
+		ok = false
+	}
+	select {
+	case err := <-rch:
+		if err == nil {
+			r.Violate(scenario, "schedule", "Read on a retired connection returned an envelope", nil, nil, "an error")
+			ok = false
+		}
+	case <-time.After(2 * hangTimeout):
+		r.Violate(scenario, "schedule", "Read on a retired connection did not return", nil, goroutineDump(), nil)
+		ok = false
+	}
+	return ok
 }
